@@ -71,6 +71,9 @@ pub enum Cmd {
     WorkspaceAdd,
     SparseSet,
     OpRestore,
+    /// `jj new bm0 bm1`: checks out a merge of two bookmarks (conflicted when they are
+    /// siblings that changed the same file).
+    NewMergeOfBookmarks,
 }
 
 const ALL_CMDS: &[Cmd] = &[
@@ -90,6 +93,7 @@ const ALL_CMDS: &[Cmd] = &[
     Cmd::WorkspaceAdd,
     Cmd::SparseSet,
     Cmd::OpRestore,
+    Cmd::NewMergeOfBookmarks,
 ];
 
 #[derive(Debug, Clone, Serialize, Deserialize)]
@@ -169,6 +173,7 @@ fn cmd_args(cmd: Cmd) -> Vec<&'static str> {
         Cmd::WorkspaceAdd => vec!["workspace", "add", "../ws2"],
         Cmd::SparseSet => vec!["sparse", "set", "--clear", "--add", "d"],
         Cmd::OpRestore => vec!["op", "restore", "@--"],
+        Cmd::NewMergeOfBookmarks => vec!["new", "bm0", "bm1"],
     }
 }
 
@@ -348,6 +353,18 @@ fn recorded_in_some_op(
     Ok(found)
 }
 
+/// Tree ids (debug form, conflicts included) of the default workspace's working-copy commit at
+/// the current head operation.
+fn wc_tree_ids(repo_dir: &Path) -> Option<String> {
+    let loader = crate::engine::cli::loader_for(repo_dir).ok()?;
+    let heads = crate::engine::cli::op_head_ids(repo_dir);
+    let [head] = heads.as_slice() else { return None };
+    let repo = crate::engine::cli::load_at_op(&loader, head).ok()?;
+    let id = repo.view().wc_commit_ids().values().next()?.clone();
+    let commit = repo.store().get_commit(&id).ok()?;
+    Some(format!("{:?}", commit.tree_ids()))
+}
+
 fn check(case: &Case) -> CheckResult {
     let env = CliEnv::new("c15-");
     let work = env.root.join("work");
@@ -412,6 +429,9 @@ fn check(case: &Case) -> CheckResult {
         .collect();
     let k = labels.len();
     let ops_after = op_log_ids(&env, &ws).map_err(Violation::new)?;
+    let ref_final_op = ops_after.first().cloned().unwrap_or_default();
+    let ref_disk_after: DiskState = read_disk(&ws);
+    let ref_wc_tree = wc_tree_ids(&repo_dir);
     let mut acceptable_heads: BTreeSet<String> =
         ops_after.iter().filter(|id| !ops_before.contains(id)).cloned().collect();
     acceptable_heads.insert(head_before.clone());
@@ -481,6 +501,21 @@ fn check(case: &Case) -> CheckResult {
         }
         // (d) no file lost.
         let disk_now = read_disk(&ws);
+        // (e) when the crashed run had published the command's final operation and the disk is
+        // exactly what the completed command leaves, recovery must end in the completed state:
+        // the working-copy commit has the same tree (conflicts included) as after the un-crashed run.
+        if reference.success() && head == ref_final_op && disk_now == ref_disk_after {
+            let now_tree = wc_tree_ids(&repo_dir);
+            if now_tree.is_some() && ref_wc_tree.is_some() && now_tree != ref_wc_tree {
+                return Err(Violation::new(format!(
+                    "{at}: the command's final operation was published and the files on disk are those of \
+                     the completed command, but after recovery the working-copy commit has tree {} instead of \
+                     {} (state is neither before nor after the command)",
+                    now_tree.unwrap(),
+                    ref_wc_tree.clone().unwrap()
+                )));
+            }
+        }
         let missing: BTreeMap<String, DiskEntry> = disk_before
             .iter()
             .filter(|(p, e)| disk_now.get(*p) != Some(*e))
@@ -559,11 +594,33 @@ fn battery() -> Vec<Case> {
     ];
     let mut out = vec![];
     for (i, cmd) in ALL_CMDS.iter().enumerate() {
+        if *cmd == Cmd::NewMergeOfBookmarks {
+            continue;
+        }
         out.push(Case {
             simple_backend: i % 2 == 0,
             fixture: fixture.clone(),
             pre_edits: vec![w(5, 1), w(2, 5)],
             cmd: *cmd,
+        });
+    }
+    // Two sibling commits that change the same file, then a checkout of their (conflicted) merge.
+    for simple_backend in [true, false] {
+        out.push(Case {
+            simple_backend,
+            fixture: vec![
+                FixStep::Edit(w(0, 2)),
+                FixStep::Edit(w(2, 1)),
+                FixStep::Commit,
+                FixStep::BookmarkCreate(1), // bm1 -> first commit
+                FixStep::NewOnRoot,
+                FixStep::Edit(w(0, 3)),
+                FixStep::Commit,
+                FixStep::BookmarkCreate(0), // bm0 -> empty child of the sibling commit
+                FixStep::NewOnRoot,
+            ],
+            pre_edits: vec![],
+            cmd: Cmd::NewMergeOfBookmarks,
         });
     }
     out
@@ -588,14 +645,14 @@ pub fn run(report: &mut Report) {
             .filter(|c| {
                 matches!(
                     c.cmd,
-                    Cmd::Commit | Cmd::NewOnRoot | Cmd::Squash | Cmd::Undo | Cmd::WorkspaceAdd | Cmd::EditParent
+                    Cmd::Commit | Cmd::NewOnRoot | Cmd::Squash | Cmd::Undo | Cmd::NewMergeOfBookmarks
                 )
             })
             .collect(),
         crate::engine::runner::Tier::Thorough => battery,
     };
     report.enumerate_par("battery", false, quick_battery, check);
-    report.prop("generated", tier.pick(3, 150), case_strategy, check);
+    report.prop("generated", tier.pick(2, 150), case_strategy, check);
     report.set_extra(
         "crash_runs",
         serde_json::json!(CRASH_RUNS.load(std::sync::atomic::Ordering::Relaxed)),
